@@ -41,7 +41,12 @@ def rand_faces(rng, n, kind):
     if kind == 'morphed':
         return dict(kind='morphed', n=n, L=float(rng.choice([1.0, 2.0])), x0=0.0, morph=str(rng.choice(['sq', 'exp', 'lin'])))
     w = 10.0 ** rng.uniform(-1, 0.5, n)
-    x0 = float(rng.normal())
+    v = rng.random()
+    if v < 0.12:      # almost uniform: cells differing by 1e-9 .. 1e-4 relative (a "uniform mesh" shortcut must not fire)
+        w = float(w[0]) * (1.0 + 10.0 ** rng.uniform(-9, -4) * rng.uniform(-1, 1, n))
+    elif v < 0.24:    # tiny or huge cells (absolute tolerances on cell sizes are wrong)
+        w = w * 10.0 ** float(rng.choice([-9, -7, 5]))
+    x0 = float(rng.normal()) * float(np.sum(w)) if v < 0.24 else float(rng.normal())
     xf = np.concatenate([[x0], x0 + np.cumsum(w)])
     return dict(kind='faces', n=n, xf=[float(x) for x in xf])
 
